@@ -5,6 +5,7 @@ import LoraVerif.Props.TieA.C09
 import LoraVerif.Props.TieA.C10
 import LoraVerif.Props.TieA.C11
 import LoraVerif.Props.TieA.C12
+import LoraVerif.Props.TieA.NewChannel
 /-!
 # Tie A for the static regional parameters and the small pure MAC helpers (builder J)
 
